@@ -26,6 +26,15 @@ Theorem c08_dep_sites_classified : forallb (classified_ok dep_map_range_exceptio
 Proof. exact dep_sites_classified. Qed.
 Print Assumptions c08_dep_sites_classified.
 
+(* structural keys do not pre-approve a second loop: every exception entry is used by AT MOST ONE site (a site is claimed
+   by the first entry that matches it), and every reviewed ambient use by at most one call *)
+Theorem c08_exceptions_cover_one_site_each :
+  one_site_per_entry map_range_exceptions map_range_sites = true /\
+  one_site_per_entry dep_map_range_exceptions dep_map_range_sites = true /\
+  one_call_per_allowed ambient_allowed ambient_calls = true.
+Proof. exact exceptions_cover_one_site_each. Qed.
+Print Assumptions c08_exceptions_cover_one_site_each.
+
 (* every reason used by the exception table stands for a proved statement (see reason_statement) *)
 Theorem c08_exceptions_justified : forall e, In e (map_range_exceptions ++ dep_map_range_exceptions) -> reason_statement (x_reason e).
 Proof. exact exceptions_justified. Qed.
@@ -271,14 +280,24 @@ Print Assumptions c08_dtone_pick_unsorted_refuted.
 (* ---- incidental process state other than map order: the lazily filled flow cache (hunt2 f1) ------------------------ *)
 
 (* PARTIAL.  model/FlowCache.v: the session's UUID source is a counter, reading a stored definition takes `draws d` UUIDs
-   from it.  When no definition of the source needs UUIDs to be read (all flows stored at the current spec version), the
-   UUID a session gives to a child run does not depend on what other look-ups filled the cache with ... *)
+   from it (`draws` stands for code: the migrations calling uuids.NewV4; no case compares it).  When the flow a session enters
+   needs no UUIDs to be read (it is stored at the current spec version), the UUID a session gives to a child run does not depend on what other look-ups filled the cache with ...
+   (hypothesis on the ENTERED flow only: flows stored below the current spec elsewhere in the assets do not matter) *)
 Theorem c08_enter_flow_cache_independent_partial : forall draws src ops u ctr,
   NoDup (map FlowCache.a_uuid src) ->
-  (forall a, In a src -> draws (FlowCache.a_def a) = 0) ->
+  (forall a, FlowCache.by_uuid src u = Some a -> draws (FlowCache.a_def a) = 0) ->
   FlowCache.enter_flow draws src (FlowCache.after src ops) u ctr = FlowCache.enter_flow draws src [] u ctr.
 Proof. exact FlowCacheProofs.enter_flow_cache_independent. Qed.
 Print Assumptions c08_enter_flow_cache_independent_partial.
+
+(* the hypothesis is exactly the negation of the known finding: for a flow that exists and was loaded before, warm = cold
+   IF AND ONLY IF reading it draws no UUID *)
+Theorem c08_enter_flow_differs_iff_draws : forall draws src ops u ctr a,
+  NoDup (map FlowCache.a_uuid src) -> FlowCache.by_uuid src u = Some a -> FlowCache.cached (FlowCache.after src ops) u <> None ->
+  (FlowCache.enter_flow draws src (FlowCache.after src ops) u ctr = FlowCache.enter_flow draws src [] u ctr
+   <-> draws (FlowCache.a_def a) = 0).
+Proof. exact FlowCacheProofs.enter_flow_differs_iff_draws. Qed.
+Print Assumptions c08_enter_flow_differs_iff_draws.
 
 (* ... and it DOES when a definition is migrated on first load (known finding flow-cache:lazy-migration-draws-uuids:
    13.x migrations of templating and every legacy migration call uuids.NewV4 on the global source) *)
@@ -287,3 +306,30 @@ Theorem c08_lazy_migration_draws_uuids_refuted :
     FlowCache.enter_flow draws src (FlowCache.after src ops) u ctr <> FlowCache.enter_flow draws src [] u ctr.
 Proof. exact FlowCacheProofs.lazy_migration_draws_refuted. Qed.
 Print Assumptions c08_lazy_migration_draws_uuids_refuted.
+
+(* ---- the known dependency findings are statements, not only table rows (review round 2) ------------------------------ *)
+
+(* c08_dep_sites_classified passes although three of the nine dependency sites are order-DEPENDENT: they are exactly these
+   (classes of KNOWN_FINDINGS.txt), and there is none inside goflow *)
+Theorem c08_known_findings_listed :
+  known_classes map_range_exceptions = [] /\
+  known_classes dep_map_range_exceptions =
+    ["dates:locale-match-map-order"; "dates:parse-error-ambiguous-layout-token"; "urns:percent-escape-map-order"]%string.
+Proof. exact known_findings_listed. Qed.
+Print Assumptions c08_known_findings_listed.
+
+(* "results never depend on map iteration order" is FALSE for gocommon urns.unescape on the input of the known line: the path
+   a%2523b parses to a#b or to a%23b depending on the visiting order of the escape table *)
+Theorem c08_urns_unescape_refuted :
+  exists l1 l2, Permutation l1 l2 /\ NoDup (map fst l1) /\
+    urns_unescape l1 path_a_2523_b = [97; 35; 98]%N /\ urns_unescape l2 path_a_2523_b = [97; 37; 50; 51; 98]%N.
+Proof. exact urns_unescape_refuted. Qed.
+Print Assumptions c08_urns_unescape_refuted.
+
+(* ... and for the layout token named in the error of parse_time(text, "tt:mm"): `t` or `tt` *)
+Theorem c08_dates_parse_error_token_refuted :
+  exists l1 l2 : list (str * str), Permutation l1 l2 /\ NoDup (map fst l1) /\
+    first_match (fun kv => str_eqb (snd kv) [49; 53]%N) fst l1 = Some [116]%N /\
+    first_match (fun kv => str_eqb (snd kv) [49; 53]%N) fst l2 = Some [116; 116]%N.
+Proof. exact dates_parse_error_token_refuted. Qed.
+Print Assumptions c08_dates_parse_error_token_refuted.
